@@ -52,6 +52,9 @@ func readTlvStream(
 				return errors.New("received TLV block larger than the maximum packet size")
 			}
 			tlvSize := typ.EncodingLength() + len.EncodingLength() + int(len)
+			if tlvSize > defn.MaxNDNPacketSize {
+				return errors.New("received TLV block larger than the maximum packet size")
+			}
 
 			if recvOff-tlvOff >= tlvSize {
 				// Packet was successfully received, send up to link service
